@@ -395,6 +395,173 @@ theorem split_whole_spec (g : Tg Int) (src tgt : String) (s : ITier Int) (lo hi 
   exact hg'
 
 
+/-! ## full functional specification, windowed call -/
+
+/-- inserting, in 'error' mode, a list of positive, mutually disjoint, stripped entries none of which collides with the
+tier: every insertion succeeds and the result holds exactly the old entries and the new ones -/
+theorem fold_insert : ∀ (l : List (Iv Int)) (t : ITier Int), t.WF → Pos l → Disj l → Stripped l →
+    (∀ x ∈ l, ∀ iv ∈ t.es, iv.e ≤ x.s ∨ x.e ≤ iv.s) →
+    ∃ nt, l.foldlM (fun acc e => acc.insertEntry e .error) t = .ok nt ∧ nt.WF ∧ nt.name = t.name ∧
+      ∀ y, y ∈ nt.es ↔ y ∈ t.es ∨ y ∈ l := by
+  intro l
+  induction l with
+  | nil => intro t hwf _ _ _ _; exact ⟨t, rfl, hwf, rfl, by simp⟩
+  | cons x l ih =>
+    intro t hwf hp hd hs hfree
+    obtain ⟨t1, h1, w1, n1, m1, _, _⟩ := C11.insert_nocollision t hwf x (hp x (by simp)) .error (hfree x (by simp))
+    have hx : C11.stripped x = x := C11.strip_id x (hs x (by simp))
+    rw [hx] at m1
+    have hd' := List.pairwise_cons.1 hd
+    obtain ⟨nt, h2, w2, n2, m2⟩ := ih t1 w1 (fun y hy => hp y (List.mem_cons_of_mem _ hy)) hd'.2
+      (fun y hy => hs y (List.mem_cons_of_mem _ hy))
+      (by
+        intro y hy iv hiv
+        rcases (m1 iv).1 hiv with h | h
+        · exact hfree y (List.mem_cons_of_mem _ hy) iv h
+        · subst h; exact Or.inl (hd'.1 y hy))
+    refine ⟨nt, ?_, w2, by rw [n2, n1], ?_⟩
+    · simp only [List.foldlM_cons, bind, Except.bind, h1]; exact h2
+    · intro y; rw [m2, m1]; simp only [List.mem_cons, or_assoc]
+
+/-- the window of a call, the cropped source entries and what they produce -/
+theorem cropped_words (s : ITier Int) (hwf : s.WF) (a b : Int) (hab : a < b)
+    (hg : SplitGrid (getIvs a b .truncated s.es)) :
+    sourceEntries (.I s) (some (a, b)) = .ok (getIvs a b .truncated s.es) ∧
+    Pos ((getIvs a b .truncated s.es).flatMap splitWords) ∧ Disj ((getIvs a b .truncated s.es).flatMap splitWords) ∧
+    Stripped ((getIvs a b .truncated s.es).flatMap splitWords) ∧
+    ∀ x ∈ (getIvs a b .truncated s.es).flatMap splitWords, a ≤ x.s ∧ x.e ≤ b := by
+  obtain ⟨t', c1, c2, _, c4, _, _⟩ := C06.crop_norebase s hwf a b hab .truncated
+  obtain ⟨sp1, sp2⟩ := C06.crop_norebase_span s hwf a b hab .truncated (by decide) t' c1
+  have hp : Pos (getIvs a b .truncated s.es) := by rw [← c4]; exact c2.pos
+  have hd : Disj (getIvs a b .truncated s.es) := by rw [← c4]; exact c2.disj
+  obtain ⟨f1, f2, f3, f4⟩ := flatMap_split _ hp hd hg
+  refine ⟨by simp only [sourceEntries, c1]; rw [← c4]; rfl, f1, f2, f3, ?_⟩
+  intro x hx
+  obtain ⟨iv, hiv, _, h1, h2, _⟩ := f4 x hx
+  rw [← c4] at hiv
+  have := c2.inLo iv hiv
+  have := c2.inHi iv hiv
+  omega
+
+/-- **full functional specification of the windowed call with an existing target tier** (exact arithmetic): for
+well-formed source and target, `a < b`, the call SUCCEEDS; the new target holds exactly (i) the pieces of the old
+target's entries OUTSIDE the window (`pieces a b .truncate`: an entry clear of the window unchanged, a straddling one cut
+at the window edge — outside `[a, b]` the tier is unchanged, `C07.isErased_labelAt`) and (ii) the words of the source
+entries cropped to the window (`flatMap_split`/`splitWords_spec`: they tile each cropped entry) — nothing else; name,
+position and span as in `split_shape` -/
+theorem split_window_spec (g : Tg Int) (src tgt : String) (s u : ITier Int) (startT endT : Option Int) (a b : Int)
+    (hwin : splitWindow g startT endT = some (a, b)) (hab : a < b)
+    (hsrc : g.getTier src = .ok (.I s)) (hwf : s.WF) (hg : SplitGrid (getIvs a b .truncated s.es))
+    (htg : g.getTier tgt = .ok (.I u)) (huwf : u.WF) :
+    ∃ nt g', g.splitTierEntries src tgt startT endT = .ok g' ∧ nt.WF ∧ nt.name = tgt ∧
+      (∀ y, y ∈ nt.es ↔ (∃ iv ∈ u.es, y ∈ pieces a b .truncate iv) ∨
+                        y ∈ (getIvs a b .truncated s.es).flatMap splitWords) ∧
+      g' = ⟨dropName g.tiers tgt ++ [.I nt], some (widenLo g.lo nt.lo), some (widenHi g.hi nt.hi)⟩ := by
+  obtain ⟨c0, f1, f2, f3, f5⟩ := cropped_words s hwf a b hab hg
+  obtain ⟨t0, e1, e2⟩ := C07.erase_noshrink u huwf a b hab .truncate (by decide)
+  have hclear := C07.isErased_clear u t0 huwf a b hab .truncate e2
+  obtain ⟨nt, i1, i2, i3, i4⟩ := fold_insert _ t0 e2.wf f1 f2 f3 (by
+    intro x hx iv hiv
+    have := hclear iv hiv
+    have := f5 x hx
+    have := e2.wf.pos iv hiv
+    have := f1 x hx
+    omega)
+  obtain ⟨hmem, hname⟩ := getTier_mem htg
+  have hn : nt.name = tgt := by rw [i3, e2.name]; exact hname
+  obtain ⟨g', hg'⟩ := splitInstall_ok g tgt nt hn
+  refine ⟨nt, g', ?_, i2, hn, ?_, splitInstall_eq hn hg'⟩
+  · have hc : g.names.contains tgt = true := by
+      apply List.contains_iff_mem.2
+      have : (AnyTier.I u).name ∈ g.names := List.mem_map_of_mem hmem
+      rw [hname] at this; exact this
+    unfold Tg.splitTierEntries
+    rw [hsrc]
+    simp only [hwin, c0, splitTarget, hc, htg, e1, splitNewTier, bind, Except.bind, if_true, Functor.map, Except.map, i1]
+    exact hg'
+  · intro y; rw [i4, e2.mem]
+
+/-- **the windowed call without an existing target**: the new tier is built by the constructor over the textgrid's span
+from the words of the cropped source entries -/
+theorem split_window_new_spec (g : Tg Int) (src tgt : String) (s : ITier Int) (startT endT : Option Int) (a b lo hi : Int)
+    (hwin : splitWindow g startT endT = some (a, b)) (hab : a < b)
+    (hsrc : g.getTier src = .ok (.I s)) (hwf : s.WF) (hg : SplitGrid (getIvs a b .truncated s.es))
+    (hfresh : tgt ∉ g.names) (hlo : g.lo = some lo) (hhi : g.hi = some hi) (hlh : lo ≤ hi) :
+    ∃ nt g', g.splitTierEntries src tgt startT endT = .ok g' ∧ nt.WF ∧ nt.name = tgt ∧
+      nt.es = (getIvs a b .truncated s.es).flatMap splitWords ∧
+      g' = ⟨dropName g.tiers tgt ++ [.I nt], some (widenLo g.lo nt.lo), some (widenHi g.hi nt.hi)⟩ := by
+  obtain ⟨c0, f1, f2, f3, _⟩ := cropped_words s hwf a b hab hg
+  obtain ⟨nt, m1, m2, m3, m4, _, _⟩ := mkITier_wf tgt _ lo hi hlh f1 f2 f3
+  obtain ⟨g', hg'⟩ := splitInstall_ok g tgt nt m4
+  refine ⟨nt, g', ?_, m2, m4, m3, splitInstall_eq m4 hg'⟩
+  have hc : g.names.contains tgt = false := by
+    cases h : g.names.contains tgt with
+    | false => rfl
+    | true => exact absurd (List.contains_iff_mem.1 h) hfresh
+  unfold Tg.splitTierEntries
+  rw [hsrc]
+  simp only [hwin, c0, splitTarget, hc, splitNewTier, bind, Except.bind, hlo, hhi, m1]
+  exact hg'
+
+/-- a window with `startT ≥ endT` is refused with ArgumentError (by the crop of the source), before anything else -/
+theorem split_window_rejects (g : Tg Int) (src tgt : String) (s : ITier Int) (startT endT : Option Int) (a b : Int)
+    (hwin : splitWindow g startT endT = some (a, b)) (hab : b ≤ a) (hsrc : g.getTier src = .ok (.I s)) :
+    g.splitTierEntries src tgt startT endT = .error .ArgumentError := by
+  unfold Tg.splitTierEntries
+  rw [hsrc]
+  simp [hwin, sourceEntries, C06.crop_rejects s a b .truncated false hab, bind, Except.bind, Functor.map, Except.map]
+
+/-! ## C13: a raising call has not touched the textgrid -/
+
+/-- `splitTierEntries` modifies the textgrid it is given — but only in its last step (`removeTier` + `addTier`), and that
+step cannot fail (`splitInstall_ok`: the name has just been removed, the reporting mode is 'warning').  So whenever the
+call raises, the exception comes from one of the four steps BEFORE the first mutation — looking up the source, cropping
+it, erasing the window from a COPY of the target, building the new tier — and the caller's textgrid is exactly as
+before (the correspondence run compares the real object before and after every raising call). -/
+theorem split_fails_before_mutation (g : Tg Int) (src tgt : String) (a b : Option Int) (e : Err)
+    (h : g.splitTierEntries src tgt a b = .error e) :
+    g.getTier src = .error e ∨
+    ∃ source, g.getTier src = .ok source ∧
+      (sourceEntries source (splitWindow g a b) = .error e ∨
+       ∃ es, sourceEntries source (splitWindow g a b) = .ok es ∧
+         (splitTarget g tgt (splitWindow g a b) = .error e ∨
+          ∃ target, splitTarget g tgt (splitWindow g a b) = .ok target ∧
+            splitNewTier g tgt target (es.flatMap splitWords) = .error e)) := by
+  unfold Tg.splitTierEntries at h
+  cases h1 : g.getTier src with
+  | error e1 => rw [h1] at h; left; cases h; rfl
+  | ok source =>
+    right; refine ⟨source, rfl, ?_⟩
+    rw [h1] at h
+    simp only [bind, Except.bind] at h
+    cases h2 : sourceEntries source (splitWindow g a b) with
+    | error e2 => rw [h2] at h; left; cases h; rfl
+    | ok es =>
+      right; refine ⟨es, rfl, ?_⟩
+      rw [h2] at h
+      simp only at h
+      cases h3 : splitTarget g tgt (splitWindow g a b) with
+      | error e3 => rw [h3] at h; left; cases h; rfl
+      | ok target =>
+        right; refine ⟨target, rfl, ?_⟩
+        rw [h3] at h
+        simp only at h
+        cases h4 : splitNewTier g tgt target (es.flatMap splitWords) with
+        | error e4 => rw [h4] at h; cases h; rfl
+        | ok nt =>
+          exfalso
+          rw [h4] at h
+          simp only at h
+          have hn : nt.name = tgt := by
+            apply splitNewTier_name _ h4
+            intro t ht
+            subst ht
+            obtain ⟨_, _, u, _, _, hu, he⟩ := splitTarget_some h3
+            rw [C12.ITier.eraseRegion_name he, hu]
+          obtain ⟨g', hg'⟩ := splitInstall_ok g tgt nt hn
+          rw [hg'] at h
+          cases h
+
 /-! ## spellCheckEntries -/
 
 /-- **C12/C05 — every successful `spellCheckEntries`**: the (copied) textgrid gets ONE new interval tier named
@@ -449,6 +616,114 @@ theorem spellOne_spec (check : String → Bool) (iv : Iv Int) :
     unfold misspelled at hw
     obtain ⟨h1, h2⟩ := List.mem_filter.1 hw
     exact ⟨by simpa using h2, h1⟩
+
+/-- first and last character exist and are not white space -/
+def Edges (cs : List Char) : Prop :=
+  (∃ c rest, cs = c :: rest ∧ pyIsSpace c = false) ∧ (∃ c, cs.getLast? = some c ∧ pyIsSpace c = false)
+
+theorem Edges.noEdge {cs : List Char} (h : Edges cs) : NoEdgeSpace cs := by
+  obtain ⟨⟨c, rest, h1, h2⟩, ⟨d, h3, h4⟩⟩ := h
+  constructor
+  · intro c' rest' h'; rw [h1] at h'; cases h'; exact h2
+  · intro c' h'; rw [h3] at h'; cases h'; exact h4
+
+theorem Edges.append3 {xs zs : List Char} (ys : List Char) (hx : Edges xs) (hz : Edges zs) : Edges (xs ++ ys ++ zs) := by
+  obtain ⟨⟨c, rest, h1, h2⟩, _⟩ := hx
+  obtain ⟨⟨c', rest', h1', _⟩, ⟨d, h3, h4⟩⟩ := hz
+  constructor
+  · exact ⟨c, rest ++ ys ++ zs, by rw [h1]; simp, h2⟩
+  · refine ⟨d, ?_, h4⟩
+    rw [List.getLast?_append, h3]
+    rfl
+
+theorem word_edges (w : String) (h : w ≠ "" ∧ ∀ c ∈ w.toList, pyIsSpace c = false) : Edges w.toList := by
+  obtain ⟨h1, h2⟩ := h
+  have hne : w.toList ≠ [] := by
+    intro h0; apply h1
+    have : w = String.ofList w.toList := by simp
+    rw [this, h0]
+  constructor
+  · cases hl : w.toList with
+    | nil => exact absurd hl hne
+    | cons c rest => exact ⟨c, rest, rfl, h2 c (by rw [hl]; simp)⟩
+  · obtain ⟨d, hd⟩ : ∃ d, w.toList.getLast? = some d := ⟨_, List.getLast?_eq_some_getLast hne⟩
+    exact ⟨d, hd, h2 d (List.mem_of_getLast? hd)⟩
+
+theorem pyJoin_comma_edges : ∀ (ms : List String), ms ≠ [] →
+    (∀ w ∈ ms, w ≠ "" ∧ ∀ c ∈ w.toList, pyIsSpace c = false) → Edges (pyJoin ", " ms).toList := by
+  intro ms
+  induction ms with
+  | nil => intro h; exact absurd rfl h
+  | cons x xs ih =>
+    intro _ hw
+    cases xs with
+    | nil => simpa [pyJoin] using word_edges x (hw x (by simp))
+    | cons y ys =>
+      have h2 := ih (by simp) (fun w hm => hw w (List.mem_cons_of_mem _ hm))
+      have h1 := word_edges x (hw x (by simp))
+      have := Edges.append3 ", ".toList h1 h2
+      simpa [pyJoin, String.toList_append] using this
+
+/-- the label `", ".join(rejected words)` carries no surrounding white space -/
+theorem pyJoin_comma_stripped (ms : List String) (hne : ms ≠ [])
+    (hw : ∀ w ∈ ms, w ≠ "" ∧ ∀ c ∈ w.toList, pyIsSpace c = false) : pyStrip (pyJoin ", " ms) = pyJoin ", " ms := by
+  rw [pyStrip_eq_iff]; exact (pyJoin_comma_edges ms hne hw).noEdge
+
+theorem spellOne_some {check : String → Bool} {iv o : Iv Int} (h : spellOne check iv = some o) :
+    o.s = iv.s ∧ o.e = iv.e ∧ misspelled check iv.l ≠ [] ∧ o.l = pyJoin ", " (misspelled check iv.l) := by
+  unfold spellOne at h
+  simp only at h
+  split at h
+  · cases h
+  · rename_i hne
+    cases h
+    refine ⟨rfl, rfl, ?_, rfl⟩
+    intro h0; apply hne; rw [h0]; rfl
+
+/-- **full functional specification of `spellCheckEntries`** (exact; no grid needed — no arithmetic happens): for a
+well-formed interval tier `target` and a fresh name the call SUCCEEDS; the result is the argument's tiers, untouched and
+in order, plus ONE well-formed tier `newTierName` over the textgrid's span whose entries are exactly, in order, the
+entries of `target` that have a rejected word — same start and end, label = the rejected words of the punctuation-free
+label joined by ", " (`spellOne_spec`) -/
+theorem spell_spec (g : Tg Int) (target nn : String) (check : String → Bool) (t : ITier Int) (lo hi : Int)
+    (ht : g.getTier target = .ok (.I t)) (hwf : t.WF) (hfresh : nn ∉ g.names)
+    (hlo : g.lo = some lo) (hhi : g.hi = some hi) (hlh : lo ≤ hi) :
+    ∃ nt, g.spellCheckEntries target nn check =
+        .ok ⟨g.tiers ++ [.I nt], some (widenLo g.lo nt.lo), some (widenHi g.hi nt.hi)⟩ ∧
+      nt.WF ∧ nt.name = nn ∧ nt.es = t.es.filterMap (spellOne check) := by
+  have hp : Pos (t.es.filterMap (spellOne check)) := by
+    intro o ho
+    obtain ⟨iv, hiv, hfo⟩ := List.mem_filterMap.1 ho
+    obtain ⟨h1, h2, _⟩ := spellOne_some hfo
+    have := hwf.pos iv hiv
+    omega
+  have hd : Disj (t.es.filterMap (spellOne check)) := by
+    unfold Disj
+    refine List.Pairwise.filterMap (spellOne check) ?_ hwf.disj
+    intro u v huv o ho o' ho'
+    obtain ⟨_, h2, _⟩ := spellOne_some (Option.mem_def.1 ho)
+    obtain ⟨h1', _, _⟩ := spellOne_some (Option.mem_def.1 ho')
+    omega
+  have hs : Stripped (t.es.filterMap (spellOne check)) := by
+    intro o ho
+    obtain ⟨iv, _, hfo⟩ := List.mem_filterMap.1 ho
+    obtain ⟨_, _, h3, h4⟩ := spellOne_some hfo
+    rw [h4]
+    apply pyJoin_comma_stripped _ h3
+    intro w hw
+    exact pySplit_words _ w ((spellOne_spec check iv).2.2 w hw).2
+  obtain ⟨nt, m1, m2, m3, m4, _, _⟩ := mkITier_wf nn _ lo hi hlh hp hd hs
+  obtain ⟨g', a1, a2, a3, a4⟩ := C12.addTier_spec g (.I nt) none .warning
+    (by intro hm; apply hfresh; have h2 : (AnyTier.I nt).name = nn := m4; rw [h2] at hm; exact hm) (by simp)
+  refine ⟨nt, ?_, m2, m4, m3⟩
+  unfold Tg.spellCheckEntries
+  rw [ht]
+  simp only [spellEntries, bind, Except.bind, hlo, hhi, m1]
+  rw [a1]
+  obtain ⟨tiers, glo, ghi⟩ := g'
+  simp only at a2 a3 a4
+  rw [a2, a3, a4, hlo, hhi]
+  rfl
 
 /-! ## concrete states that meet the hypotheses; regressions -/
 
